@@ -17,7 +17,7 @@ namespace Ipv8.C11
     plain endpoint, or through a TunnelEndpoint that forwards removals —, no proxy hands packets to `o` and the
     TunnelEndpoint does not refer to `o`, then after ANY later sequence of registry operations by other parties
     (unbounded), `o` cannot be made to run: not by a datagram of ANY prefix from the socket (`Endpoint.notify_listeners`),
-    not by a datagram delivered from a tunnel (`TunnelEndpoint.notify_listeners`, either `from_tunnel` value), not through
+    not by a datagram of that prefix delivered from a tunnel (`TunnelEndpoint.notify_listeners`, either `from_tunnel` value), not through
     a proxy, and not by another overlay's anonymised send (`TunnelEndpoint.send` → `tunnel_community`). -/
 theorem silent_after_unload (w : World) (o : Lid) (viaOuter : Bool) (ops : List ROp) (p : Pfx)
     (hstack : viaOuter = true → w.fwdRemove = true)
